@@ -250,6 +250,7 @@ def configs(tier):
     # the same configurations with the decoder queried and elaborated between the add() calls
     extra = [dict(c, use_between=True) for c in out if len(c["subs"]) >= 2][::(6 if quick else 2)]
     extra += [dict(c, feat_enum=True) for c in out if c["feat"]][::(5 if quick else 2)]
+    extra += [dict(c, elab_twice=True) for c in out if len(c["subs"]) >= 2][::(11 if quick else 4)]
     return out + extra
 
 
